@@ -212,6 +212,20 @@ pub fn plan(tier: Tier) -> Plan {
             }
         }));
     }
+    {
+        let total = if thorough { 1260 } else { 168 };
+        for part in 0..16usize {
+            p.units.push(unit("mixed-mid-size-family-(finite-family)", format!("mixed part {}", part), move |st, rep| {
+                for (i, (_, kvs)) in crate::model::mixed_family(total).into_iter().enumerate() {
+                    if i % 16 != part { continue; }
+                    do_case(&kvs, (10_000, 2), st, rep);
+                    let set: Vec<Kv> = kvs.iter().map(|x| (x.0.clone(), 0)).collect();
+                    do_case(&set, (10_000, 2), st, rep);
+                    do_case(&set, (50, 3), st, rep);
+                }
+            }));
+        }
+    }
     let corpora: Vec<&'static str> = if thorough { vec!["words-10000", "wiki-urls-10000", "words-100000"] } else { vec!["words-10000", "wiki-urls-10000"] };
     for c in corpora {
         p.units.push(unit("corpora-sharing-ratio", format!("corpus {}", c), move |st, rep| {
